@@ -195,7 +195,7 @@ type c31Stream struct {
 	maxStep uint32 // largest timestamp step between two frames
 }
 
-func c31GenStream(r *kit.Rand, nFrames int, hostile bool, codec string) c31Stream {
+func c31GenStream(r *kit.Rand, nFrames int, hostile bool, codec string, tsEdge bool) c31Stream {
 	var st c31Stream
 
 	switch r.Intn(8) {
@@ -212,18 +212,23 @@ func c31GenStream(r *kit.Rand, nFrames int, hostile bool, codec string) c31Strea
 	default:
 		st.start = uint16(r.Intn(65536))
 	}
+	stepMode := r.Intn(4)
+	tsSpan := nFrames * []int{3000, 1, 5000, 3000}[stepMode] // roughly the timestamp distance the stream covers
 	var ts uint32
-	switch r.Intn(6) {
+	tsMode := r.Intn(6)
+	if tsEdge { // the case uses WithMaxTimeDelay: put the 2^32 wrap or the 2^31 sign change inside the stream
+		tsMode = 1 + r.Intn(2)
+	}
+	switch tsMode {
 	case 0:
 		ts = 0
 	case 1:
-		ts = uint32(1<<32 - 1 - r.Intn(nFrames*3000+1)) // wraps inside the stream
+		ts = uint32(1<<32 - 1 - r.Intn(tsSpan+1)) // wraps inside the stream
 	case 2:
-		ts = uint32(1<<31 - 1 - r.Intn(nFrames*3000+1)) // crosses the int32 sign boundary
+		ts = uint32(1<<31 - 1 - r.Intn(tsSpan+1)) // crosses the int32 sign boundary
 	default:
 		ts = r.Uint32()
 	}
-	stepMode := r.Intn(4)
 	sizeMode := r.Intn(4)
 	if codec == "opus" {
 		sizeMode = 0
@@ -421,7 +426,8 @@ func c31Gen(r *kit.Rand, idx int) *c31Case {
 	switch class {
 	case 0: // conservation: loss-free, bounded reorder, maxLate derived from the delivery order
 		c.Class = "conserve"
-		st := c31GenStream(r, nFrames, false, c.Codec)
+		wantDelay := r.Chance(0.3)
+		st := c31GenStream(r, nFrames, false, c.Codec, wantDelay && r.Bool())
 		c.WrapSeq, c.WrapTS, c.MaxStep = st.wrapSeq, st.wrapTS, st.maxStep
 		order := make([]int, len(st.pkts))
 		for i := range order {
@@ -442,7 +448,7 @@ func c31Gen(r *kit.Rand, idx int) *c31Case {
 		}
 		c.MaxLate = uint16(ml)
 		c.StrictSpan = strict
-		if r.Chance(0.3) {
+		if wantDelay {
 			ms := (int64(strictTS) + 89) / 90 // smallest window (ms) with window*90 >= the timestamp span
 			ms += int64(kit.Pick(r, []int{0, 0, 1, 10, 1000}))
 			if ms < 1 {
@@ -459,13 +465,14 @@ func c31Gen(r *kit.Rand, idx int) *c31Case {
 	default:
 		hostile := class == 3
 		c.Class = []string{"", "lossy", "dups", "hostile"}[class]
-		st := c31GenStream(r, nFrames, hostile, c.Codec)
+		wantDelay := r.Chance(0.25)
+		st := c31GenStream(r, nFrames, hostile, c.Codec, wantDelay && r.Chance(0.3))
 		c.WrapSeq, c.WrapTS, c.MaxStep = st.wrapSeq, st.wrapTS, st.maxStep
 		c.MaxLate = kit.Pick(r, c31MaxLates)
 		if hostile && r.Chance(0.1) {
 			c.MaxLate = uint16(kit.Pick(r, []int{0, 3, 32767, 65535}))
 		}
-		if r.Chance(0.25) {
+		if wantDelay {
 			c.DelayMs = kit.Pick(r, []int{1, 30, 100, 1000, 60000})
 		}
 		loss := kit.Pick(r, []float64{0, 0, 0.01, 0.05, 0.1, 0.2})
